@@ -652,9 +652,11 @@ theorem nextIsPaste_false : ∀ (l : List Tok), (∀ t ∈ l, (t != ['#']) = tru
     have : (a == ['#']) = false := by simpa using h a (by simp)
     simp [nextIsPaste, this]
 
-theorem subst_params (q : Quirks) (ps : List Tok) (args : List (List XTok)) (hva : ps.contains (tokS "__VA_ARGS__") = false) :
+theorem subst_params (q : Quirks) (ps : List Tok) (raw args : List (List XTok)) (hva : ps.contains (tokS "__VA_ARGS__") = false) :
     ∀ (body : List Tok) (out : List XTok), (∀ t ∈ body, (t != ['#']) = true) →
-      subst q true ps args args body out = some (out.reverse ++ substParams ps args body) := by
+      subst q true ps raw args body out = some (out.reverse ++ substParams ps args body) := by
+  have hraw : ∀ t, (argOf ps raw t).isSome = (argOf ps args t).isSome := by
+    intro t; unfold argOf; split <;> simp [Option.isSome_map]
   have hv : ∀ t a, argOf ps args t = some a → (t == tokS "__VA_ARGS__") = false := by
     intro t a h
     unfold argOf at h
@@ -701,13 +703,23 @@ theorem subst_params (q : Quirks) (ps : List Tok) (args : List (List XTok)) (hva
       have hnp : nextIsPaste (h2 :: r') = false := nextIsPaste_false _ hr
       cases ha : argOf ps args t with
       | none =>
+        have hrn : argOf ps raw t = none := by
+          have := hraw t; rw [ha] at this
+          cases hx : argOf ps raw t with
+          | none => rfl
+          | some y => rw [hx] at this; simp at this
         have := ih (tokOf t :: out) hr
         simp only [tokOf] at this
-        simp [this, substParams, ha, tokOf]
+        simp [this, substParams, ha, hrn, tokOf]
       | some a =>
+        obtain ⟨rr, hrr⟩ : ∃ rr, argOf ps raw t = some rr := by
+          have := hraw t; rw [ha] at this
+          cases hx : argOf ps raw t with
+          | none => rw [hx] at this; simp at this
+          | some y => exact ⟨y, rfl⟩
         have hvt := hv t a ha
         have := ih (a.reverse ++ out) hr
-        simp only [hnp, Bool.false_eq_true, if_false, hvt, Bool.and_false, Bool.false_and]
+        simp only [hrr, hnp, Bool.false_eq_true, if_false, hvt, Bool.and_false, Bool.false_and]
         simp [this, substParams, ha]
 
 theorem mapM_ok_eq {α β : Type} (f : α → Except XErr β) (g : α → β) : ∀ (l : List α), (∀ x ∈ l, f x = .ok (g x)) →
@@ -734,14 +746,37 @@ theorem flatBodies_facts {ms : List Macro} (hf : flatBodies ms = true) {n : Tok}
   simp only [Bool.and_eq_true, Option.isNone_iff_eq_none, List.all_eq_true] at this
   exact fun t ht => this t ht
 
-theorem substParams_nonmacro {ms : List Macro} {ps : List Tok} {args : List (List XTok)} {body : List Tok}
-    (hb : ∀ t ∈ body, lookup ms t = none) (ha : ∀ a ∈ args, ∀ x ∈ a, lookup ms x.s = none) :
-    ∀ x ∈ substParams ps args body, lookup ms x.s = none := by
+/-- a token the rescan leaves alone: it names no macro, or it is painted -/
+def Inert (ms : List Macro) (x : XTok) : Prop := lookup ms x.s = none ∨ x.blue = true
+
+theorem expand_inert (q : Quirks) (ms : List Macro) : ∀ (ts : List XTok) (dis : List Tok),
+    (∀ t ∈ ts, Inert ms t) → expand q ms dis ts = .ok ts := by
+  intro ts
+  induction ts with
+  | nil => intro dis _; rw [expand]
+  | cons t r ih =>
+    intro dis h
+    have ht := h t (by simp)
+    have ihr := ih dis (fun x hx => h x (by simp [hx]))
+    rw [expand]
+    split
+    · simp [ihr, Except.map]
+    · rename_i hnb
+      split
+      · simp [ihr, Except.map]
+      · rename_i m hl
+        rcases ht with h0 | h0
+        · rw [h0] at hl; simp at hl
+        · simp [h0] at hnb
+
+theorem substParams_inert {ms : List Macro} {ps : List Tok} {args : List (List XTok)} {body : List Tok}
+    (hb : ∀ t ∈ body, lookup ms t = none) (ha : ∀ a ∈ args, ∀ x ∈ a, Inert ms x) :
+    ∀ x ∈ substParams ps args body, Inert ms x := by
   intro x hx
   simp only [substParams, List.mem_flatMap] at hx
   obtain ⟨s, hs, hx⟩ := hx
   cases hao : argOf ps args s with
-  | none => rw [hao] at hx; simp at hx; subst hx; exact hb s hs
+  | none => rw [hao] at hx; simp at hx; subst hx; exact Or.inl (hb s hs)
   | some a =>
     rw [hao] at hx
     simp only at hx
@@ -761,33 +796,66 @@ theorem substParams_nonmacro {ms : List Macro} {ps : List Tok} {args : List (Lis
           rw [this] at hx; simp at hx
     · simp at hao
 
-/-- **function-like macro replacement = simultaneous parameter substitution**, for replacement lists without macro names and `#`
-and arguments without macro names -/
-theorem expand_fn_flat (q : Quirks) (ms : List Macro) (hf : flatBodies ms = true) (t lp : XTok) (m : Macro) (ps : List Tok)
-    (rest1 rest2 : List XTok) (args : List (List XTok))
+theorem mapM_ok_of_getElem {α β : Type} (f : α → Except XErr β) : ∀ (l : List α) (r : List β) (hl : r.length = l.length),
+    (∀ i (h : i < l.length), f l[i] = .ok (r[i]'(by omega))) → l.mapM f = .ok r := by
+  intro l
+  induction l with
+  | nil => intro r hl _; cases r with
+    | nil => rfl
+    | cons _ _ => simp at hl
+  | cons a l' ih =>
+    intro r hl h
+    cases r with
+    | nil => simp at hl
+    | cons b r' =>
+      have h0 := h 0 (by simp)
+      have hr := ih r' (by simpa using hl) (fun i hi => by have := h (i + 1) (by simp; omega); simpa using this)
+      simp only [List.getElem_cons_zero] at h0
+      simp [List.mapM_cons, h0, hr, bind, Except.bind, pure, Except.pure]
+
+/-- the context in which the arguments of an invocation of `n` are macro replaced: that of the caller (6.10.3.1); the variant
+`argInherit` (not the code, not the standard) adds the invoked macro's own name -/
+def argCtx (q : Quirks) (n : Tok) (dis : List Tok) : List Tok := if q.argInherit then n :: dis else dis
+
+/-- **function-like macro replacement with nested invocations in the arguments** = simultaneous substitution of the parameters by
+the arguments, each macro replaced ON ITS OWN in the caller's context (`argCtx`), provided the replaced arguments are inert
+(contain only tokens that name no macro or are painted) and the replacement list itself contains no macro name and no `#`. -/
+theorem expand_fn_nested (q : Quirks) (ms : List Macro) (t lp : XTok) (m : Macro) (ps : List Tok) (dis : List Tok)
+    (rest1 rest2 : List XTok) (args expd : List (List XTok))
+    (hbody : ∀ x ∈ m.body, lookup ms x = none ∧ (x != ['#']) = true)
     (htn : isName t.s = true) (htb : t.blue = false) (hl : lookup ms t.s = some m) (hps : m.params = some ps)
     (hnv : m.variadic = false) (hne : ps.length ≠ 0) (hva : ps.contains (tokS "__VA_ARGS__") = false) (hlp : lp.s = ['('])
-    (hpa : parseArgs rest1 = some (args, rest2)) (hlen : args.length = ps.length)
-    (hargs : ∀ a ∈ args, ∀ x ∈ a, lookup ms x.s = none) :
-    expand q ms [] (t :: lp :: rest1) = (expand q ms [] rest2).map (substParams ps args m.body ++ ·) := by
-  have hbody := flatBodies_facts hf hl
+    (hpa : parseArgs rest1 = some (args, rest2)) (hlen : args.length = ps.length) (hdis : dis.contains t.s = false)
+    (hel : expd.length = args.length)
+    (hexp : ∀ i (h : i < args.length),
+      (if plainUse ps m.body (min i (ps.length - 1)) then expand q ms (argCtx q t.s dis) args[i] else .ok args[i]) =
+        .ok (expd[i]'(by omega)))
+    (hin : ∀ e ∈ expd, ∀ x ∈ e, Inert ms x) :
+    expand q ms dis (t :: lp :: rest1) = (expand q ms dis rest2).map (substParams ps expd m.body ++ ·) := by
   have hbind : bindArgs m ps args = some args := by simp [bindArgs, hne, hnv, hlen]
+  have hbind2 : bindArgs m ps expd = some expd := by simp [bindArgs, hne, hnv, hel, hlen]
   have hmap : (args.zipIdx.attach.mapM fun (x : { x // x ∈ args.zipIdx }) =>
-      if plainUse ps m.body (min x.1.2 (ps.length - 1)) then expand q ms [] x.1.1 else (.ok x.1.1 : Except XErr (List XTok))) = .ok args := by
-    rw [mapM_ok_eq _ (fun x => x.1.1)]
-    · congr 1
-      have e1 : args.zipIdx.attach.map (fun x => x.1.1) = args.zipIdx.map (fun x => x.1) := List.attach_map_val
-      rw [e1, List.zipIdx_map_fst 0 args]
-    · intro x _
-      have hx : x.1.1 ∈ args := List.fst_mem_of_mem_zipIdx (x := x.1) x.2
-      split
-      · exact expand_nonmacro q ms _ _ (hargs _ hx)
-      · rfl
-  have hsub := subst_params q ps args hva m.body [] (fun x hx => (hbody x hx).2)
+      if plainUse ps m.body (min x.1.2 (ps.length - 1)) then
+        (if q.argInherit then expand q ms (t.s :: dis) x.1.1 else expand q ms dis x.1.1)
+      else (.ok x.1.1 : Except XErr (List XTok))) = .ok expd := by
+    apply mapM_ok_of_getElem _ _ _ (by simp [hel])
+    intro i hi
+    have hi' : i < args.length := by simpa using hi
+    have e1 : (args.zipIdx.attach[i]).1.1 = args[i] := by simp
+    have e2 : (args.zipIdx.attach[i]).1.2 = i := by simp
+    simp only [e1, e2]
+    have := hexp i hi'
+    unfold argCtx at this
+    by_cases hp : plainUse ps m.body (min i (ps.length - 1)) = true
+    · simp only [hp, if_true] at this ⊢
+      split <;> simp_all
+    · simp only [hp, Bool.false_eq_true, if_false] at this ⊢
+      simpa using this
+  have hsub := subst_params q ps args expd hva m.body [] (fun x hx => (hbody x hx).2)
   simp only [List.reverse_nil, List.nil_append] at hsub
-  have hnm : ∀ x ∈ substParams ps args m.body, lookup ms x.s = none :=
-    substParams_nonmacro (fun x hx => (hbody x hx).1) hargs
-  have hexp := expand_nonmacro q ms (substParams ps args m.body) [t.s] hnm
+  have hnm : ∀ x ∈ substParams ps expd m.body, Inert ms x :=
+    substParams_inert (fun x hx => (hbody x hx).1) hin
+  have hexp2 := expand_inert q ms (substParams ps expd m.body) (t.s :: dis) hnm
   rw [expand]
   simp only [htn, htb, Bool.not_true, Bool.or_self, Bool.false_eq_true, if_false]
   split
@@ -795,8 +863,7 @@ theorem expand_fn_flat (q : Quirks) (ms : List Macro) (hf : flatBodies ms = true
   · rename_i m' hl'
     have hm : m' = m := by rw [hl] at hl'; injection hl' with h; exact h.symm
     subst hm
-    have hd : ([] : List Tok).contains t.s = false := by simp
-    simp only [hd, Bool.false_eq_true, dite_false]
+    simp only [hdis, Bool.false_eq_true, dite_false]
     split
     · rename_i hpn; rw [hps] at hpn; simp at hpn
     · rename_i ps' hps'
@@ -812,11 +879,40 @@ theorem expand_fn_flat (q : Quirks) (ms : List Macro) (hf : flatBodies ms = true
         obtain ⟨rfl, rfl⟩ := e
         simp only [hbind]
         rw [hmap]
-        simp only [hbind, hsub, hexp]
+        simp only [hbind2, hsub, hexp2]
         split
         · rename_i l n _ hlast
-          have hfn : isFnName ms l = false := by simp [isFnName, hnm l (List.mem_of_getLast? hlast)]
+          have hfn : isFnName ms l = false := by
+            rcases hnm l (List.mem_of_getLast? hlast) with h0 | h0 <;> simp [isFnName, h0]
           simp [hfn]
         · simp
+
+/-- the case of arguments without macro names (and `flatBodies` tables): plain simultaneous substitution -/
+theorem expand_fn_flat (q : Quirks) (ms : List Macro) (hf : flatBodies ms = true) (t lp : XTok) (m : Macro) (ps : List Tok)
+    (rest1 rest2 : List XTok) (args : List (List XTok))
+    (htn : isName t.s = true) (htb : t.blue = false) (hl : lookup ms t.s = some m) (hps : m.params = some ps)
+    (hnv : m.variadic = false) (hne : ps.length ≠ 0) (hva : ps.contains (tokS "__VA_ARGS__") = false) (hlp : lp.s = ['('])
+    (hpa : parseArgs rest1 = some (args, rest2)) (hlen : args.length = ps.length)
+    (hargs : ∀ a ∈ args, ∀ x ∈ a, lookup ms x.s = none) :
+    expand q ms [] (t :: lp :: rest1) = (expand q ms [] rest2).map (substParams ps args m.body ++ ·) :=
+  expand_fn_nested q ms t lp m ps [] rest1 rest2 args args (flatBodies_facts hf hl) htn htb hl hps hnv hne hva hlp hpa hlen
+    (by simp) rfl
+    (fun i h => by
+      split
+      · exact expand_inert q ms _ _ (fun x hx => Or.inl (hargs _ (List.getElem_mem h) x hx))
+      · rfl)
+    (fun e he x hx => Or.inl (hargs e he x hx))
+
+
+/-- 6.10.3.4p2: a token that names a macro whose replacement is being rescanned is painted and left alone -/
+theorem expand_blue (q : Quirks) (ms : List Macro) (dis : List Tok) (t : XTok) (rest : List XTok) (m : Macro)
+    (htn : isName t.s = true) (htb : t.blue = false) (hl : lookup ms t.s = some m) (hd : dis.contains t.s = true) :
+    expand q ms dis (t :: rest) = (expand q ms dis rest).map ({ t with blue := true } :: ·) := by
+  rw [expand]
+  simp only [htn, htb, Bool.not_true, Bool.or_self, Bool.false_eq_true, if_false]
+  split
+  · rename_i h0; rw [hl] at h0; simp at h0
+  · rename_i m' hl'
+    simp only [hd, dite_true]
 
 end Cppcheck.PPMacro
